@@ -38,7 +38,7 @@ type LNode struct {
 	KillTime bool     `json:"kill_time,omitempty"`
 	StopTime bool     `json:"stop_time,omitempty"`
 	Flags    []string `json:"flags,omitempty"`
-	End      string   `json:"end,omitempty"` // ret err xcpu xmem kill
+	End      string   `json:"end,omitempty"` // ret err xcpu xmem kill bcpu bmem
 	N        int      `json:"n,omitempty"`
 	Cross    bool     `json:"cross,omitempty"`
 	CrossEnd bool     `json:"cross_end,omitempty"`
@@ -158,6 +158,10 @@ func (r *renderer) ending(n *LNode) {
 		r.f(`local t = {} while true do t[#t+1] = {} tick(%d) end`, n.ID)
 	case "kill":
 		r.f(`runtime.killcontext()`)
+	case "bcpu": // one request of 40000 cpu units: beyond every tight or medium budget
+		r.f(`local s = string.rep("", 40000, "") return "r", %d`, n.ID)
+	case "bmem": // one request of 1e6 bytes
+		r.f(`local s = string.rep("x", 1000000) return "r", %d`, n.ID)
 	}
 }
 
@@ -388,7 +392,7 @@ func (g *lgen) node(depth int, sure, inCo bool, ctxInCo int) LNode {
 		return LNode{K: "mburn", N: rapid.IntRange(1, 60).Draw(g.t, "n")}
 	case 2:
 		n := LNode{K: "ctx"}
-		n.End = []string{"ret", "err", "xcpu", "xmem", "kill"}[g.pick("end", 5, 2, 2, 1, 1)]
+		n.End = []string{"ret", "err", "xcpu", "xmem", "kill", "bcpu", "bmem"}[g.pick("end", 5, 2, 2, 1, 1, 2, 2)]
 		switch n.End {
 		case "xcpu":
 			if g.pick("b", 1, 1) == 0 {
@@ -433,7 +437,7 @@ func (g *lgen) node(depth int, sure, inCo bool, ctxInCo int) LNode {
 		n.Body = g.body(depth+1, childSure, inCo, cic)
 		return n
 	case 3:
-		n := LNode{K: "pcall", End: []string{"ret", "err"}[g.pick("end", 2, 1)]}
+		n := LNode{K: "pcall", End: []string{"ret", "err", "bcpu", "bmem"}[g.pick("end", 2, 1, 1, 1)]}
 		cic := ctxInCo
 		if inCo {
 			cic++
@@ -473,7 +477,7 @@ func genProg() *rapid.Generator[*LProg] {
 		switch rapid.IntRange(0, 39).Draw(t, "special") {
 		case 13:
 			g.wantFK = true
-		case 17:
+		case 17, 18, 19:
 			g.wantCE = true
 		case 21, 22:
 			g.wantYield = true
@@ -1014,7 +1018,7 @@ func luaCheck(rd *rendered, run *luaRun) (v luaVerdict) {
 			v.classes = append(v.classes, "lua:conservation-checked")
 		}
 		// R7/R10: status and results
-		expected := map[string]string{"ret": "done", "err": "error", "xcpu": "killed", "xmem": "killed", "kill": "killed"}[n.End]
+		expected := map[string]string{"ret": "done", "err": "error", "xcpu": "killed", "xmem": "killed", "kill": "killed", "bcpu": "done", "bmem": "done"}[n.End]
 		if isCC && fin != nil {
 			st := fin.status
 			v.classes = append(v.classes, "lua:status-"+st)
@@ -1033,6 +1037,17 @@ func luaCheck(rd *rendered, run *luaRun) (v luaVerdict) {
 				if rd.ctxParent[id] != 0 {
 					v.nt = true
 				}
+			}
+			// a context terminated by a limit it merely inherited does not come
+			// back from callcontext: the termination reaches the owner of the limit
+			if st == "killed" && !(n.End == "kill" && end != nil) {
+				ownCPU := reqKillCPU.set && fin.killCPU.set && fin.killCPU.v == reqKillCPU.v
+				ownMem := reqKillMem.set && fin.killMem.set && fin.killMem.v == reqKillMem.v
+				if !ownCPU && !ownMem {
+					fail("lua-propagation", "node %d: callcontext returned a context killed by a limit although none of its limits is its own (kill cpu=%s requested %s, memory=%s requested %s): the enclosing context owns the limit and must be terminated instead",
+						id, fin.killCPU, reqKillCPU, fin.killMem, reqKillMem)
+				}
+				v.classes = append(v.classes, "lua:killed-by-own-limit")
 			}
 			if len(ret) >= 4 {
 				switch st {
@@ -1072,12 +1087,32 @@ func luaCheck(rd *rendered, run *luaRun) (v luaVerdict) {
 			if pr := raw["pret"][id]; pr != nil && len(pr) >= 4 {
 				ok := pr[2].k == 'b' && pr[2].b
 				switch {
-				case n.End == "ret" && ok && pr[3].k == 's' && pr[3].s == "r":
+				case n.End != "err" && ok && pr[3].k == 's' && pr[3].s == "r":
 				case n.End == "err" && !ok && pr[3].k == 's' && pr[3].s == fmt.Sprintf("e%d", id):
-				case !inf.sure && !ok:
-					// a kill inside pcall surfaces as a failed pcall (C05's subject)
 				default:
+					// in particular pcall never returns false for a limit: its context
+					// has no limit of its own, the termination reaches the owner
 					fail("lua-pcall", "node %d: pcall of a body ending by %q returned %v", id, n.End, pr)
+				}
+			}
+		}
+		// a call that never came back (its context was terminated by an inherited
+		// limit): the enclosing context must have been terminated as well
+		if returned := (isCC && fin != nil) || (n.K == "pcall" && raw["pret"][id] != nil); in != nil && !returned {
+			v.classes = append(v.classes, "lua:termination-propagated")
+			v.nt = true
+			switch owner := rd.ctxParent[id]; {
+			case owner == 0:
+				if !tr.Killed {
+					fail("lua-propagation", "node %d: the call never returned but the session context was not terminated", id)
+				}
+			default:
+				on := rd.info[owner].n
+				if ofin := byNode[owner]["fin"]; ofin != nil && ofin.status != "killed" {
+					fail("lua-propagation", "node %d: the call never returned (terminated by an inherited limit) but the enclosing context %d reports %q", id, owner, ofin.status)
+				}
+				if on.K == "pcall" && raw["pret"][owner] != nil {
+					fail("lua-propagation", "node %d: the call never returned (terminated by an inherited limit) but the enclosing pcall %d returned %v", id, owner, raw["pret"][owner])
 				}
 			}
 		}
